@@ -5,6 +5,6 @@ CONSTANTS
   AwaitStoppingInner = TRUE
   LateStart = FALSE
 SPECIFICATION LiveSpec
-INVARIANTS TypeOK StopOrderState FailurePropagates
+INVARIANTS TypeOK StopOrderState FailurePropagates FailureIsReported
 PROPERTIES StartAfterDeps StopAfterDependants Termination FailurePropagatesLive
 CHECK_DEADLOCK TRUE
